@@ -10,7 +10,7 @@ the `String()` methods of `cond.go` / `pred_*.go`).
 * `print : Cond → List Tok` mirrors `String()`, `parse : List Tok → Option Cond` mirrors the
   grammar plus the semantic actions of `classListener` (value range checks, `net.ParseCIDR`
   masking, protocol names).
-* `lex : List Char → Option (List Tok)` and `render : List Tok → List Char` connect tokens and
+* `lex : List Char → List Tok` and `render : List Tok → List Char` connect tokens and
   text for the driver; the ANTLR lexer is tied to `lex` by T1 only (not proved).
 
 Core Lean only.
@@ -322,8 +322,7 @@ def lexF : Nat → List Char → List Tok
             else none
       match lit with
       | some (t, r') =>
-        -- `cls=` competes with the longer of the word rules only if those are longer than 4,
-        -- which is impossible since `=` ends a word; the other literals are single-purpose
+        -- literal tokens: `cls=` is longer than the word `cls` and `=` ends every word rule
         t :: lexF f r'
       | none =>
         match netC with
@@ -334,9 +333,8 @@ def lexF : Nat → List Char → List Tok
           if wordLen = 0 ∧ digLen = 0 then lexF f r
           else if alphaRun.length > hexRun.length ∨
               (alphaRun.length = hexRun.length ∧ (keyword alphaRun).isSome) then
-            -- keyword or STRING (keywords are listed before HEX_DIGITS? no: HEX_DIGITS is listed
-            -- first, but no keyword consists of hex letters only, so equal length + keyword
-            -- cannot happen; kept for totality)
+            -- keyword or STRING (a keyword never has the same length as the HEX_DIGITS run: no
+            -- keyword consists of hex letters only)
             match keyword alphaRun with
             | some t => t :: lexF f (cs.drop alphaRun.length)
             | none => .str alphaRun :: lexF f (cs.drop alphaRun.length)
